@@ -26,6 +26,7 @@
 //! while a later acknowledged request (the generator ends every case with one) is drained, or in the short grace
 //! period of `state`, and is reported as a stray.
 //!
+//! After a remote version (`rv`): own `crsql_db_version()`, own head and own need unchanged, nothing announced.
 //! Oracle (on the real trace only, independent of the model): failed ⇒ store digest, `crsql_db_version()` and
 //! own head/need unchanged, response carries no version; no-op ⇒ the same; acknowledged ⇒ version = previous + 1
 //! = `crsql_db_version()` afterwards, the version's chunks tile `0..=last_seq` exactly once, `last_seq` = highest
@@ -855,8 +856,8 @@ impl Prop for C07 {
     fn rule(&self) -> &'static str {
         "one case = one fresh real agent and a sequence of write requests (tx/txt/txbig/conc) ending with an acknowledged marker \
          request and `state`; non-trivial iff a request failed after an earlier statement of the same request had executed \
-         (or by a constraint violation), or a version was announced in >= 2 chunks, or requests ran concurrently; distinct by \
-         hash of the op list"
+         (or by a constraint violation), or a version was announced in >= 2 chunks, or requests ran concurrently, or a remote actor's version \
+         carried the number of the node's next own version; distinct by hash of the op list"
     }
     fn default_cases(&self, tier: Tier) -> usize {
         match tier {
